@@ -161,7 +161,7 @@ func (m *SynchronizedMemory) Map(driver core1_0.DeviceDriver, references int, of
 	defer m.mapMutex.Unlock()
 
 	oldRefCount := m.References()
-	_ = m.postMapUnmap()
+	switchedToExtraMapping := m.postMapUnmap()
 
 	if oldRefCount > 0 {
 		m.mapReferences += references
@@ -174,6 +174,10 @@ func (m *SynchronizedMemory) Map(driver core1_0.DeviceDriver, references int, of
 
 	mappedData, result, err := driver.MapMemory(m.memory, offset, size, flags)
 	if err != nil {
+		if switchedToExtraMapping {
+			// Nothing got mapped, so there is no mapping for the hysteresis to hold on to
+			m.extraMapping = false
+		}
 		return nil, result, err
 	}
 
